@@ -216,7 +216,6 @@ theorem unlock_oproj {c : Cfg} {s s' : State} {t : Nat} {l : Label} (hl : l = .r
 
 /-! ## runner (inside `rcu_defer_barrier_queue`) -/
 
-open UrcuVerif.Defer (isFct clrFct fctMark) in
 structure RState where
   rpc : RPc
   cur : Nat
